@@ -1543,8 +1543,6 @@ func classifyVC(err error, inner bool) string {
 			return "sig"
 		}
 		return "badsig"
-	case has("get attestation data"):
-		return "objerr"
 	}
 	return "pre"
 }
@@ -1750,6 +1748,15 @@ func (e *episode) execVC(run *hx.Run, o vcOp) {
 			if len(ls) > 0 {
 				l := ls[int(it.alt.a)%len(ls)]
 				mutate(l, it.alt.b)
+				// an object that does not survive its own codec (e.g. a bit list whose last byte became
+				// zero) cannot come out of the HTTP router and cannot be cloned for a subscriber: such
+				// an alteration is not a possible submission, it is undone
+				if par, err := s.toCore(o.node); err == nil {
+					if _, err := par.Clone(); err != nil && l.v.Kind() != reflect.Struct {
+						mutate(l, it.alt.b)
+						run.Count("vc:uncloneable-alteration-undone")
+					}
+				}
 				run.Case(fmt.Sprintf("vc/%s/v%d/field%s", o.method, ba.ver, l.path))
 			}
 		} else {
